@@ -14,7 +14,7 @@ RULE = ('designs of strata S1, S1x, S2, S3, S4, S5, S6, S9 (quick: fixed core + 
         'states = (design, strategy, n) calls made; non-trivial = a call returned at least one sequence.')
 ASSUMPTIONS = ['a RuntimeError/ValueError raised by a block constructor means the design is not accepted (skipped)']
 BUDGET_S = {'quick': 90, 'thorough': 400}
-STRATA = ['S1', 'S1p', 'S1x', 'S1xa', 'S2', 'S2s', 'S3', 'S4', 'S5', 'S6', 'S9']
+STRATA = ['S1', 'S1n', 'S1p', 'S1x', 'S1xa', 'S2', 'S2s', 'S3', 'S4', 'S5', 'S6', 'S9']
 QUICK_CAPS = dsw.QUICK_CAPS_MID
 GENS = ['sat', 'rnd', 'cms', 'uni', 'iter', 'uniform']
 CRASH_IS_VIOLATION = True     # a call that terminates the interpreter did not "return a list"
